@@ -389,6 +389,20 @@ Section Conjugation.
     rewrite E20, E21. reflexivity.
   Qed.
 
+  (* same, with the row values read directly from idx (the column `put` does not touch row axes) *)
+  Corollary twomode_mixed_correct_rows (F Fc : tensor -> tensor) n m1 m2 (rho : tensor) idx :
+    respects_shape 2 F -> respects_shape 2 Fc ->
+    m1 < n -> m2 < n -> m1 <> m2 -> length idx = 2 * n ->
+    apply_twomode_mixed F Fc n m1 m2 rho idx
+    = Fc (fun cj => F (fun rj => rho (put (put idx [2 * m1 + 1; 2 * m2 + 1] cj) [2 * m1; 2 * m2] rj))
+                      [nth (2 * m1) idx 0; nth (2 * m2) idx 0])
+         [nth (2 * m1 + 1) idx 0; nth (2 * m2 + 1) idx 0].
+  Proof.
+    intros HF HFc H1 H2 Hne Hl. rewrite twomode_mixed_correct by auto.
+    apply HFc. intros cj _. cbv zeta.
+    rewrite !put_spectator by (intros [H|[H|[]]]; lia). reflexivity.
+  Qed.
+
 End Conjugation.
 
 (* ---------------------------------------------------------------- refutation of the pre-fix code *)
